@@ -460,6 +460,11 @@ def check(ctx):
            'parse_san recognises the castling spellings the printer emits (%s)' % sorted(lits), site=ps.loc())
 
     # what the printer appends, in which order and under which conditions (normal forms; the castling early returns aside)
+    if not any(n['k'] == 'VarDecl' and n.get('name') == 'matching_moves' for n in swc.all_nodes()):
+        # the rules below read the candidate set as a vector narrowed by filters and tested by its size; another bookkeeping
+        # (counters, find_if chains) with the same outcome is not something they can judge
+        raise AnalysisBroken('san_without_check does not keep the moves that would be written alike in the list the printer rules read '
+                             '(`matching_moves`): when file and rank are added is decided from tests of that list only')
     from rules.norm import Norm as _NS
     nsw = _NS(swc, inline=False, keep=('s', 'capturing_bb', 'matching_moves', 'moved_piece'))
     KIND = frozenset(v for k_, v in pk.items() if k_ not in ('NO_PIECE_KIND', 'PAWN') and isinstance(v, int) and v <= pk['KING'])
